@@ -60,7 +60,55 @@ func run(n int) string {
 	}
 	l, _ := svc2.GetListener()
 	l.Close()
-	return late(n)
+	if r := late(n); r != "ok" {
+		return r
+	}
+	return fsidle(n)
+}
+
+// fsidle: the same on a filesystem socket path and on TCP (other listener types than the abstract socket above): an idle service
+// with a 150 ms timeout stops by itself, also after a client has come and gone, and removes its socket file.
+func fsidle(n int) string {
+	dir, err := os.MkdirTemp("", "vclock")
+	if err != nil {
+		return "fsidle: " + err.Error()
+	}
+	defer os.RemoveAll(dir)
+	for _, kind := range []string{"fs", "fs-visited", "tcp"} {
+		svc, _ := varlink.NewService("v", "p", "1", "u")
+		path := fmt.Sprintf("%s/c%d-%s.sock", dir, n, kind)
+		addr := "unix:" + path
+		if kind == "tcp" {
+			addr = "tcp:127.0.0.1:0"
+		}
+		done := make(chan error, 1)
+		go func() { done <- svc.Listen(context.Background(), addr, 150*time.Millisecond) }()
+		if kind == "fs-visited" {
+			for t := 0; t < 500; t++ {
+				if c, err := net.Dial("unix", path); err == nil {
+					c.Close()
+					break
+				}
+				time.Sleep(time.Millisecond)
+			}
+		}
+		select {
+		case e := <-done:
+			var te varlink.ServiceTimeoutError
+			if !errors.As(e, &te) {
+				return fmt.Sprintf("fsidle(%s): expected the timeout error, got %v", kind, e)
+			}
+		case <-time.After(3 * time.Second):
+			svc.Shutdown()
+			return fmt.Sprintf("fsidle(%s): an idle service with a 150 ms timeout was still serving after 3 s", kind)
+		}
+		if kind != "tcp" {
+			if _, err := os.Lstat(path); err == nil {
+				return fmt.Sprintf("fsidle(%s): the socket file is still there after the timeout exit", kind)
+			}
+		}
+	}
+	return "ok"
 }
 
 // late: timeout T = 400 ms; a short connection arrives at 0.7 T and is closed at once. The period must be measured from
